@@ -13,3 +13,6 @@ import AioftpModel.Driver.Session
 import AioftpModel.Lemmas.Session
 import AioftpModel.Properties.C03
 import AioftpModel.Properties.C05
+import AioftpModel.Model.Lifecycle
+import AioftpModel.Driver.Lifecycle
+import AioftpModel.Properties.C12
